@@ -337,6 +337,12 @@ func runSendJoin(r *harness.Run, c sjCase) (bool, error) {
 		return false, fmt.Errorf("harness: %v", err)
 	}
 	rr := real[e.ID]
+	if c.Signature == "valid+forged-local" {
+		// the requesting server claims that we signed the event already
+		cp := *rr
+		cp.JSON = forgeSig(rr.JSON, local, localKey.KeyID)
+		rr = &cp
+	}
 	reqEventID := rr.ID
 	if !c.EventIDMatches {
 		reqEventID = "$somethingelse" + strings.Repeat("x", 29)
@@ -378,7 +384,7 @@ func runSendJoin(r *harness.Run, c sjCase) (bool, error) {
 	if !c.OriginMatches {
 		why = append(why, "sender does not belong to the requesting server")
 	}
-	if c.Signature != "valid" {
+	if c.Signature != "valid" && c.Signature != "valid+forged-local" {
 		why = append(why, "sender's server signature "+c.Signature)
 	}
 	if c.Current == "ban" {
@@ -498,6 +504,9 @@ func runInvite(r *harness.Run, c invCase) (bool, error) {
 	rr := real[e.ID]
 	// strip a pre-existing local signature so that the handler's own signature is what is checked
 	js := stripSig(rr.JSON, local)
+	if c.Signature == "valid+forged-local" {
+		js = forgeSig(js, local, localKey.KeyID)
+	}
 	ver := gmsl.MustGetRoomVersion(gmsl.RoomVersion(c.Version))
 	ev, err := ver.NewEventFromUntrustedJSON(js)
 	if err != nil {
@@ -539,7 +548,7 @@ func runInvite(r *harness.Run, c invCase) (bool, error) {
 	if !c.RoomMatches {
 		why = append(why, "room ID differs from the request")
 	}
-	if c.Signature != "valid" {
+	if c.Signature != "valid" && c.Signature != "valid+forged-local" {
 		why = append(why, "sender's server signature "+c.Signature)
 	}
 	if c.Known && c.Current == "join" {
@@ -555,6 +564,26 @@ func runInvite(r *harness.Run, c invCase) (bool, error) {
 		return true, fmt.Errorf("HandleInvite accepted although %s (%+v)", strings.Join(why, "; "), c)
 	}
 	return true, nil
+}
+
+// forgeSig adds a worthless signature under (server, keyID), keeping the others.
+func forgeSig(js []byte, server, keyID string) []byte {
+	v := evgen.MustParse(js)
+	m := map[string]map[string][]byte{}
+	if sigs := evgen.Get(v, "signatures"); sigs != nil {
+		for _, sm := range sigs.Members {
+			m[sm.Key] = map[string][]byte{}
+			for _, km := range sm.Val.Members {
+				b, _ := evgen.DecodeB64(km.Val.Str)
+				m[sm.Key][km.Key] = b
+			}
+		}
+	}
+	if m[server] == nil {
+		m[server] = map[string][]byte{}
+	}
+	m[server][keyID] = make([]byte, 64)
+	return evgen.WithSignatures(js, m)
 }
 
 func stripSig(js []byte, server string) []byte {
@@ -937,7 +966,7 @@ func canon(v interface{}) []byte { return evgen.CanonOf(v) }
 func main() { harness.Main("C15", "fault_enumeration", run) }
 
 func run(r *harness.Run) {
-	r.Rule("full products of parameter alphabets: make_join (remote version list x origin x local residency x join rule x pending invite x allowed-room residency x authoriser candidates x power-levels presence x 6 template-builder outcomes; versions 6, 8, 10, 12 quick / 1-12 thorough; the other handlers versions 1, 10, 12 quick / 1-12 thorough), make_leave (origin x residency x 6 template outcomes), send_join (membership x state key x room / event ID match x origin x signature state x current membership x authorised-via x querier error), invite (event kind x target x room match x signature x known room x current membership x stripped state source x room-querier error), PerformJoin over a scripted remote (make_join x send_join outcomes). Oracle: guard soundness - every ACCEPTED request satisfies all listed conditions, and the returned event is the unmodified event with a valid local signature; vacuity guard: each handler must accept some cell. Non-trivial = distinct accepted cell + distinct refused cell with exactly one condition broken.")
+	r.Rule("full products of parameter alphabets: make_join (remote version list x origin x local residency x join rule x pending invite x allowed-room residency x authoriser candidates x power-levels presence x 6 template-builder outcomes; versions 6, 8, 10, 12 quick / 1-12 thorough; the other handlers versions 1, 10, 12 quick / 1-12 thorough), make_leave (origin x residency x 6 template outcomes), send_join (membership x state key x room / event ID match x origin x signature state (valid, absent, wrong key, valid plus a forged signature under the local server's own name and key ID) x current membership x authorised-via x querier error), invite (event kind x target x room match x signature x known room x current membership x stripped state source x room-querier error), PerformJoin over a scripted remote (make_join x send_join outcomes). Oracle: guard soundness - every ACCEPTED request satisfies all listed conditions, and the returned event is the unmodified event with a valid local signature; vacuity guard: each handler must accept some cell. Non-trivial = distinct accepted cell + distinct refused cell with exactly one condition broken.")
 	r.Assume("Allowed / VerifyJSON are sub-oracles (C07, C02)", "completeness (every well-formed request is accepted) is checked only as the vacuity guard")
 	replay := func(kind string, raw json.RawMessage) error {
 		var err error
@@ -1048,7 +1077,7 @@ func run(r *harness.Run) {
 				for _, rm := range bools {
 					for _, em := range bools {
 						for _, om := range bools {
-							for _, sg := range []string{"valid", "absent", "other-key"} {
+							for _, sg := range []string{"valid", "absent", "other-key", "valid+forged-local"} {
 								for _, cur := range []string{"", "join", "ban", "leave", "invite"} {
 									for _, via := range []string{"", "local", "remote", "malformed"} {
 										for _, qe := range bools {
@@ -1081,7 +1110,7 @@ func run(r *harness.Run) {
 		for _, k := range []string{"invite", "join", "topic"} {
 			for _, tg := range []string{"invited", "other"} {
 				for _, rm := range bools {
-					for _, sg := range []string{"valid", "absent", "other-key"} {
+					for _, sg := range []string{"valid", "absent", "other-key", "valid+forged-local"} {
 						for _, kn := range bools {
 							for _, cur := range []string{"", "join", "leave", "invite"} {
 								for _, sp := range []string{"given", "empty-state-from-querier", "state-from-querier"} {
